@@ -156,6 +156,24 @@ static void comparator_and_muxtree(Net &N, int bits) {
     int sel[3] = {gt, N.gate(G_NOT, gt), N.input(rng.below(2))};
     for (int lvl = 0; lvl < 3; lvl++) { std::vector<int> nx; for (size_t i = 0; i + 1 < data.size(); i += 2) nx.push_back(N.gate(G_MUX, sel[lvl], data[i + 1], data[i])); data = nx; }
 }
+// in-place conditional updates: an oblivious write into a small memory (slot = MUX(hit, value, slot), result overwrites an
+// operand), a selector overwritten by its own MUX, and in-place two-input gates on either operand
+static void inplace_updates(Net &N, int slots, int writes) {
+    std::vector<int> mem; for (int i = 0; i < slots; i++) mem.push_back(N.input(rng.below(2)));
+    for (int wv = 0; wv < writes; wv++) {
+        int value = N.input(rng.below(2));
+        for (int i = 0; i < slots; i++) {
+            int hit = (int) rng.below(slots) == i ? N.input(1) : N.input(0);
+            N.gate(G_MUX, hit, value, mem[i], mem[i]);            // result is the third operand
+        }
+        int sel = N.input(rng.below(2));
+        N.gate(G_MUX, sel, mem[wv % slots], value, sel);           // result is the first operand
+        int y = N.input(rng.below(2));
+        N.gate(G_MUX, sel, y, mem[(wv + 1) % slots], y);            // result is the second operand
+        N.gate(rnd_bin_gate(), mem[0], y, -1, y);                   // two-input gate writing over its second operand
+        N.gate(rnd_bin_gate(), y, mem[0], -1, y);                   // ... and over its first operand
+    }
+}
 // gates whose operands are all maximally noisy admissible inputs, and the same gates on fresh inputs (for the independence test)
 static void class_probe(Net &N, int count) {
     for (int i = 0; i < count; i++) {
@@ -232,7 +250,7 @@ int main(int argc, char **argv) {
     while ((int) (out.evaluations - start) < budget) {
         int left = budget - (int) (out.evaluations - start);
         const char *fname = "";
-        switch (family++ % 7) {
+        switch (family++ % 8) {
             case 0: fname = "random-dag"; random_dag(N, 12, left < 300 ? left : 300); break;
             case 1: fname = "nand-chain-inplace"; nand_chain_inplace(N, left < 200 ? left : 200); break;
             case 2: fname = "balanced-tree"; balanced_tree(N, 32, rnd_bin_gate()); break;
@@ -240,6 +258,7 @@ int main(int argc, char **argv) {
             case 4: fname = "ripple-adder-8"; ripple_adder(N, 8); break;
             case 5: fname = "comparator+muxtree"; comparator_and_muxtree(N, 8); break;
             case 6: fname = "class-probe"; class_probe(N, left < 120 ? left / 3 + 1 : 40); break;
+            case 7: fname = "in-place-conditional-updates"; inplace_updates(N, 4, left < 80 ? 1 : 4); break;
         }
         int maxd = 0; for (auto &x: N.w) if (x.depth > maxd) maxd = x.depth;
         fam_count[fname]++;
